@@ -34,11 +34,9 @@ fn main() {
             let seed: u64 = args[4].parse().unwrap();
             let scale: usize = args[5].parse().unwrap();
             world::CANON.store(world::canon_scenario(scen), std::sync::atomic::Ordering::Relaxed);
-            let lines = with_codec!(codec, A => scen::run::<A>(scen, seed, scale));
-            let mut f = std::io::BufWriter::new(std::fs::File::create(&args[6]).unwrap());
-            for l in &lines {
-                writeln!(f, "{l}").unwrap();
-            }
+            // lines are streamed to the file as they are produced (a crash leaves the prefix behind)
+            let lines = with_codec!(codec, A => scen::run::<A>(scen, seed, scale, Some(args[6].as_str())));
+            let _ = std::fs::remove_file(format!("{}.intent", args[6]));
             println!("{}", lines.len());
         }
         "replay" => {
